@@ -60,7 +60,8 @@ ASSUMPTIONS = ['in-memory sockets (a sample of the SMTP hops is replayed over re
 
 
 def BOUNDS(tier):
-    return {'addresses': len(ADDRS), 'max_recipients': 3, 'bodies': len(BODIES), 'headers': len(HEADERS)}
+    return {'addresses': len(ADDRS), 'max_recipients': 3, 'bodies': len(BODIES) if tier == 'quick' else len(thorough_bodies()), 'headers': len(HEADERS),
+            'smtp_configurations': len(smtp_configs(tier))}
 
 
 def rcpt_lists():
@@ -71,7 +72,11 @@ def rcpt_lists():
     return out
 
 
-def envelopes(sweep):
+def envelopes(sweep, tier='quick'):
+    if sweep == 'bodies':
+        for b in thorough_bodies():
+            yield ADDRS[0], [ADDRS[1], ADDRS[0]], HEADERS[0], b
+        return
     if sweep == 'addr':
         for s in SENDERS:
             for rl in rcpt_lists():
@@ -98,6 +103,29 @@ SMTP_CONFIGS = [{'name': 'all', 'drop': []}, {'name': 'none', 'drop': ['PIPELINI
     [{'name': 'size50', 'drop': [], 'size': 50}, {'name': 'auth', 'drop': [], 'auth': True}, {'name': 'starttls', 'drop': [], 'tls': True},
      {'name': 'helo-fallback', 'drop': [], 'helo': True}, {'name': 'reuse', 'drop': [], 'reuse': True},
      {'name': 'no-8BITMIME+encoder', 'drop': ['8BITMIME'], 'encoder': True}]
+
+
+def smtp_configs(tier):
+    if tier != 'thorough':
+        return SMTP_CONFIGS
+    extra = []
+    names = ['PIPELINING', '8BITMIME', 'SMTPUTF8']
+    for r in range(0, 4):
+        for drop in itertools.combinations(names, r):
+            for size in (None, 50):
+                for auth in (False, True):
+                    for tls in (False, True):
+                        extra.append({'name': 'drop[%s]%s%s%s' % (','.join(drop), ' size50' if size else '', ' auth' if auth else '', ' starttls' if tls else ''),
+                                      'drop': list(drop), 'size': size, 'auth': auth, 'tls': tls})
+    return SMTP_CONFIGS + extra
+
+
+def thorough_bodies():
+    out = list(BODIES)
+    for n in range(1, 4):
+        for tup in itertools.product([b'.', b'\r', b'\n', b'a'], repeat=n):
+            out.append(b''.join(tup))
+    return out
 
 
 class CaptureQueue(object):
@@ -460,10 +488,15 @@ def judge_http(env, outcome, captured, errors):
 # ------------------------------------------------------------------ glue
 def configs(tier, seed):
     cfgs = []
-    for i in range(len(SMTP_CONFIGS)):
+    for i in range(len(smtp_configs(tier))):
         for sweep in ('addr', 'content'):
             for k in range(2):
                 cfgs.append({'t': 'smtp', 'cfg': i, 'sweep': sweep, 'k': k, 'of': 2})
+    if tier == 'thorough':
+        for i in (0, 1, 2, 3):
+            cfgs.append({'t': 'smtp', 'cfg': i, 'sweep': 'bodies', 'k': 0, 'of': 1})
+        cfgs.append({'t': 'lmtp', 'sweep': 'bodies'})
+        cfgs.append({'t': 'http', 'sweep': 'bodies'})
     for sweep in ('addr', 'content'):
         cfgs.append({'t': 'lmtp', 'sweep': sweep})
         cfgs.append({'t': 'lmtp', 'sweep': sweep, 'reuse': True})
@@ -476,7 +509,7 @@ def run_config(cfg, tier, seed):
     res = Result()
     items = list(envelopes(cfg['sweep']))
     if cfg['t'] == 'smtp':
-        sc = SMTP_CONFIGS[cfg['cfg']]
+        sc = smtp_configs(tier)[cfg['cfg']]
         for i, (s, rl, h, b) in enumerate(items):
             if i % cfg['of'] != cfg['k']:
                 continue
@@ -491,7 +524,7 @@ def run_config(cfg, tier, seed):
                 vs = judge_smtp(sc, env, o, cap, info)
                 res.outcome((sc['name'], classify(o, env)[1], len(cap)))
                 for sig, msg in vs:
-                    res.violation(sig, msg, {'t': 'smtp', 'cfg': cfg['cfg'], 'env': [s, rl, b2s(h), b2s(b)]})
+                    res.violation(sig, msg, {'t': 'smtp', 'cfg': cfg['cfg'], 'tier': tier, 'env': [s, rl, b2s(h), b2s(b)]})
             res.interesting((sc['name'], s, tuple(rl), b))
             if not sc.get('tls') and i % 19 == cfg['k']:
                 # conformance of the in-memory sockets: same hop over real gevent sockets on the real loop
@@ -541,7 +574,7 @@ def replay(rep):
     s, rl, h, b = rep['env']
     env = make_env(s, rl, h.encode('latin-1'), b.encode('latin-1'))
     if rep['t'] == 'smtp':
-        sc = SMTP_CONFIGS[rep['cfg']]
+        sc = smtp_configs(rep.get('tier', 'quick'))[rep['cfg']]
         envs = [env] if not sc.get('reuse') else [env, env.copy()]
         outcomes, info = run_smtp_hop(sc, [e.copy() for e in envs])
         vs = []
